@@ -15,11 +15,11 @@ def Cfg.probed : Cfg :=
     fixCmpTrunc := FIX_D26_CMPTRUNC, fixDeleteAll := FIX_D1_DELETEALL,
     fixEndPush := FIX_F16_ENDPUSH, fixUniqReset := FIX_F16_UNIQRESET,
     fixIterDelete := FIX_F16_ITERDELETE }
-  -- fixPushLoop (D2, a static function of opt.c) is probed by the check on the real pdsh and handed
+  -- fixPushLoop (D2) and fix2Br (F02-2BR), static code of opt.c, are probed by the check on the real pdsh and handed
   -- to the driver with each run (`hl xcl`)
 
 def Cfg.describe (c : Cfg) : String :=
   s!"D15/D25={c.fixUlongMax} D16={c.fixDigits} D17={c.fixIterSuffix} D18={c.fixCurTok} " ++
-  s!"D22={c.fixSuffixBal} D23={c.fixHostBuf} D24={c.fixNth} D19={c.fixRemoveDepth} D20={c.fixPopIter} D26={c.fixCmpTrunc} D1={c.fixDeleteAll} D2={c.fixPushLoop} ENDPUSH={c.fixEndPush} UNIQRESET={c.fixUniqReset} ITERDELETE={c.fixIterDelete}"
+  s!"D22={c.fixSuffixBal} D23={c.fixHostBuf} D24={c.fixNth} D19={c.fixRemoveDepth} D20={c.fixPopIter} D26={c.fixCmpTrunc} D1={c.fixDeleteAll} D2={c.fixPushLoop} ENDPUSH={c.fixEndPush} UNIQRESET={c.fixUniqReset} ITERDELETE={c.fixIterDelete} 2BR={c.fix2Br}"
 
 end PdshVerif.Hostlist
